@@ -9,10 +9,11 @@ import VaxisModel.Model.Key
 import VaxisModel.Spec.KeyEnc
 import VaxisModel.Lemmas.KeyMatch
 import VaxisModel.Lemmas.KeyDecode
+import VaxisModel.Lemmas.KeySelf
 
 namespace VaxisModel.Props.C09
 open VaxisModel.Model.Key VaxisModel.Spec.KeyEnc VaxisModel.Gen.Keys
-open VaxisModel.Lemmas.KeyMatch VaxisModel.Lemmas.KeyDecode
+open VaxisModel.Lemmas.KeyMatch VaxisModel.Lemmas.KeyDecode VaxisModel.Lemmas.KeySelf
 
 /-! ## Tables regenerated from key.go agree with the protocol documents -/
 
@@ -192,5 +193,136 @@ theorem decode_exact_modify_other_keys (u : Uni) (m : Nat) (code : Int) (hc : in
   have : lookup2 (27, 126) specialsKeys = none := by decide
   have h27 : toRune 27 = 27 := by decide
   simp [this, h27]
+
+/-! ## A chord matches its own `String()`
+
+`String()` writes `Meta+Hyper+Super+Ctrl+Alt+Shift+` prefixes and the key's name or rune;
+`MatchString` splits on `+`, lower-cases the labels and looks the name up with `EqualFold`.
+`AsciiAgree u`: `u.toLower` / `u.foldEq` agree with Go on ASCII runes (all that ASCII names need).
+The three table facts are kernel-evaluated over the regenerated `keyNames` / `stringMods` /
+`matchStringMods`. -/
+
+/-- Modifier prefixes of `String()` parse back (all 256 masks). -/
+theorem prefix_facts : ((List.range 256).all fun m =>
+    let S := splitOn 43 (modPrefix m stringMods)
+    (S.getLastD [1] == []) && (parseMods asciiUni S.dropLast == m &&& 63) && S.all asciiB &&
+    (stripLocks (m &&& 63) == stripLocks m)) = true := by decide +kernel
+
+/-- Every name of `keyNames` is ASCII, has no '+', at least two runes, and resolves (first match
+    under case folding) to the key it is the first name of. -/
+theorem name_facts : (keyNames.all fun e =>
+    let name := findKeyName e.1 keyNames
+    asciiB e.2 && asciiB name && !(name.contains 43) && decide (2 ≤ name.length) &&
+    (findName asciiUni name keyNames == some e.1) &&
+    (decide (e.1 > maxRune) || [KeyTab, KeySpace, KeyEsc, KeyBackspace, KeyEnter].contains e.1)) = true := by decide +kernel
+
+/-- No name of the table belongs to a character key above space other than DEL. -/
+theorem names_not_chars : (keyNames.all fun e => decide (e.1 > maxRune) || decide (e.1 ≤ 32) || decide (e.1 = 127)) = true := by
+  decide +kernel
+
+theorem self_match_named (u : Uni) (hu : AsciiAgree u) (k : Key) (e : Int × Str) (he : e ∈ keyNames)
+    (hke : e.1 = k.keycode) (hm : k.mods < 256) (hev : k.event ≠ EventRelease) :
+    matchString u k (keyString u k) = true := by
+  have nf := List.all_eq_true.mp name_facts e he
+  simp only [Bool.and_eq_true, Bool.or_eq_true, decide_eq_true_eq, Bool.not_eq_true', beq_iff_eq, hke] at nf
+  obtain ⟨⟨⟨⟨⟨_, hascii⟩, hplus⟩, hlen⟩, hfind⟩, hbranch⟩ := nf
+  have pf := List.all_eq_true.mp prefix_facts k.mods (List.mem_range.mpr hm)
+  simp only [Bool.and_eq_true, beq_iff_eq] at pf
+  obtain ⟨⟨⟨hlast, hmask⟩, hSascii⟩, hstrip⟩ := pf
+  have hbranch' : k.keycode > maxRune ∨ k.keycode ∈ [KeyTab, KeySpace, KeyEsc, KeyBackspace, KeyEnter] := by
+    rcases hbranch with h | h
+    · exact Or.inl h
+    · exact Or.inr (by simpa using h)
+  rw [keyString_named u k hev hbranch']
+  generalize hname : findKeyName k.keycode keyNames = name at *
+  obtain ⟨a, b, rest, rfl⟩ : ∃ a b rest, name = a :: b :: rest := by
+    match name, hlen with
+    | a :: b :: rest, _ => exact ⟨a, b, rest, rfl⟩
+  have hnoplus : (43 : Int) ∉ (a :: b :: rest) := by
+    intro hmem
+    have : (a :: b :: rest).contains 43 = true := List.contains_iff_mem.mpr hmem
+    rw [this] at hplus; cases hplus
+  rw [matchString_long, splitOn_append 43 _ hnoplus]
+  generalize hS : splitOn 43 (modPrefix k.mods stringMods) = S at *
+  have hl : S.getLastD [] = [] := by
+    cases S with
+    | nil => rfl
+    | cons x t => simpa [List.getLastD] using hlast
+  rw [hl, List.nil_append, matchFields_concat]
+  have hD : (S.dropLast.all asciiB) = true := by
+    apply List.all_eq_true.mpr
+    intro x hx
+    exact List.all_eq_true.mp hSascii x (List.dropLast_subset _ hx)
+  rw [findName_congr hu _ hascii keyNames (by
+        apply List.all_eq_true.mpr; intro e' he'
+        have := List.all_eq_true.mp name_facts e' he'
+        simp only [Bool.and_eq_true] at this
+        exact this.1.1.1.1.1), hfind, parseMods_congr hu _ hD, hmask]
+  rw [matches_iff]
+  exact Or.inl ⟨rfl, hstrip⟩
+
+theorem self_match_char (u : Uni) (hu : AsciiAgree u) (k : Key)
+    (hkc : 32 < k.keycode ∧ k.keycode ≤ maxRune ∧ k.keycode ≠ 127)
+    (hm : k.mods < 256) (hev : k.event ≠ EventRelease)
+    (ch : Int) (hch : ch = if k.mods &&& ModCapsLock ≠ 0 then u.toUpper k.keycode else k.keycode)
+    (hvalid : validRune ch = true) (hplus : ch ≠ 43)
+    (htext : ch ≠ k.keycode → k.text = [ch]) :
+    matchString u k (keyString u k) = true := by
+  obtain ⟨h32, hmax, h127⟩ := hkc
+  have hmax' : k.keycode ≤ 1114111 := hmax
+  have hun : ∀ e ∈ keyNames, e.1 ≠ k.keycode := by
+    intro e he heq
+    have := List.all_eq_true.mp names_not_chars e he
+    simp only [Bool.or_eq_true, decide_eq_true_eq, heq] at this
+    have hmr : maxRune = 1114111 := rfl
+    omega
+  have hks : keyString u k = modPrefix k.mods stringMods ++ [ch] := by
+    unfold keyString
+    have e1 : ¬(k.keycode = KeyTab ∨ k.keycode = KeySpace ∨ k.keycode = KeyEsc ∨ k.keycode = KeyBackspace ∨ k.keycode = KeyEnter) := by
+      simp only [KeyTab, KeySpace, KeyEsc, KeyBackspace, KeyEnter]; omega
+    have e2 : ¬ k.keycode = 8 := by omega
+    have e3 : ¬ k.keycode < 0 := by omega
+    have e4 : ¬ k.keycode < 0x20 := by omega
+    simp only [hev, ne_eq, not_false_eq_true, if_true, e1, e2, e3, e4, if_false, hmax,
+      findKeyName_none _ _ hun, List.append_nil, ← hch]
+    simp [strOfRune, hvalid]
+  have pf := List.all_eq_true.mp prefix_facts k.mods (List.mem_range.mpr hm)
+  simp only [Bool.and_eq_true, beq_iff_eq] at pf
+  obtain ⟨⟨⟨hlast, hmask⟩, hSascii⟩, hstrip⟩ := pf
+  have hfinal : ∀ mask, stripLocks mask = stripLocks k.mods → «matches» u k ch mask = true := by
+    intro mask hmk
+    rw [matches_iff]
+    by_cases hc : ch = k.keycode
+    · exact Or.inl ⟨hc.symm, hmk⟩
+    · exact Or.inr (Or.inl ⟨by rw [htext hc]; simp [strOfRune, hvalid], hmk⟩)
+  rw [hks]
+  generalize hp : modPrefix k.mods stringMods = p at *
+  cases p with
+  | nil =>
+    -- no printable modifier: the binding is the single rune
+    have : matchString u k ([] ++ [ch]) = «matches» u k ch 0 := rfl
+    rw [this]
+    apply hfinal
+    have h0 : parseMods asciiUni (splitOn 43 ([] : Str)).dropLast = 0 := by decide
+    rw [h0] at hmask
+    rw [← hstrip, ← hmask]
+  | cons c p' =>
+    have hlong : matchString u k ((c :: p') ++ [ch]) = matchFields u k (splitOn 43 ((c :: p') ++ [ch])) := by
+      cases p' <;> rfl
+    have hnp : (43 : Int) ∉ [ch] := by simp [Ne.symm hplus]
+    rw [hlong, splitOn_append 43 _ hnp]
+    generalize hS : splitOn 43 (c :: p') = S at *
+    have hl : S.getLastD [] = [] := by
+      cases S with
+      | nil => rfl
+      | cons x t => simpa [List.getLastD] using hlast
+    have hD : (S.dropLast.all asciiB) = true := by
+      apply List.all_eq_true.mpr
+      intro x hx
+      exact List.all_eq_true.mp hSascii x (List.dropLast_subset _ hx)
+    rw [hl, List.nil_append, matchFields_single, parseMods_congr hu _ hD, hmask]
+    exact hfinal _ hstrip
+
+example : AsciiAgree asciiUni := ⟨fun _ _ _ => rfl, fun _ _ _ _ _ _ => rfl⟩
 
 end VaxisModel.Props.C09
